@@ -134,6 +134,15 @@ func (e renameCallableOutputEdit) Apply(ast *syntax.Ast) (int, error) {
 		if callable.GetId() == e.Callable.GetId() &&
 			syntax.DefiningFile(callable) == syntax.DefiningFile(e.Callable) {
 			count += e.applyOuts(callable.GetOutParams())
+			if stage, ok := callable.(*syntax.Stage); ok &&
+				stage != nil && stage.Retain != nil {
+				for _, r := range stage.Retain.Params {
+					if r.Id == e.OldParam {
+						r.Id = e.NewParam
+						count++
+					}
+				}
+			}
 			if pipe, ok := callable.(*syntax.Pipeline); ok &&
 				pipe != nil && pipe.Ret != nil && pipe.Ret.Bindings != nil {
 				for _, b := range pipe.Ret.Bindings.List {
